@@ -52,6 +52,28 @@ func readOps() []readOp {
 			}
 			return "ok:" + jsonOf(canonGo(t.A))
 		}},
+		readOp{"Unpack twice into the same struct capturing a *Config reached through a reference", func(c *ucfg.Config, o []ucfg.Option) string {
+			// the second Unpack finds the captured config already in the target; with AppendValues a
+			// self-merge through a shared view would double the referenced lists
+			var t struct {
+				C *ucfg.Config `config:"c"`
+				B *ucfg.Config `config:"b"`
+				A *ucfg.Config `config:"a"`
+			}
+			res := ""
+			for i := 0; i < 3; i++ {
+				oo := o
+				if i == 2 {
+					oo = append(append([]ucfg.Option{}, o...), ucfg.AppendValues)
+				}
+				if err := c.Unpack(&t, oo...); err != nil {
+					res += "err;"
+				} else {
+					res += "ok;"
+				}
+			}
+			return res
+		}},
 		readOp{"Has/CountField/Child/GetFields/Path", func(c *ucfg.Config, o []ucfg.Option) string {
 			h, _ := c.Has("n.k", -1, o...)
 			n, _ := c.CountField("n", o...)
